@@ -130,15 +130,25 @@ func RunC14(r *sim.Run) {
 	noisePicks := 0
 	failMsg := ""
 
+	warm, growLeft, grown := 0, 0, 0 // see the "grow" thread below
+	var growObj *proxyv1alpha1.UpstreamCluster
+	growEp := ""
 	for pi := 0; pi < nPick; pi++ {
 		pi := pi
-		sc.Go(fmt.Sprintf("pick%d", pi), func() {
+		pth := sc.Go(fmt.Sprintf("pick%d", pi), func() {
 			for {
 				sc.Boundary()
 				if done {
 					return
 				}
 				if remaining <= 0 {
+					if warm > 0 {
+						// traffic goes on while a server is being added (not measured: the ready set is changing)
+						warm--
+						if picker, err := info.MatchAttributes(c14Attrs("get")); err == nil {
+							_, _ = picker.Pop()
+						}
+					}
 					continue
 				}
 				remaining--
@@ -155,6 +165,10 @@ func RunC14(r *sim.Run) {
 				picks = append(picks, pick{pi, ep.Endpoint, round})
 			}
 		})
+		if t.Draw(3) == 0 {
+			// a request's goroutine is descheduled once at an arbitrary statement
+			pth.StallAt, pth.StallFor = 1+t.Draw(40), 20+t.Draw(200)
+		}
 	}
 	noiseLeft := 0
 	for ni := 0; ni < nNoise; ni++ {
@@ -177,6 +191,28 @@ func RunC14(r *sim.Run) {
 						_, _ = picker.Pop()
 					}
 				}
+			}
+		})
+	}
+
+	// a server is added between two stretches (policies over all endpoints only): the
+	// update is applied by a thread of its own while unmeasured traffic goes on; the new
+	// endpoint becomes ready afterwards and the next stretch is measured over the larger set
+	if !explicit {
+		sc.Go("grow", func() {
+			for {
+				sc.Boundary()
+				if done {
+					return
+				}
+				if growLeft <= 0 {
+					continue
+				}
+				if err := info.Sync(growObj); err != nil {
+					failMsg = "Sync (grow): " + err.Error()
+					return
+				}
+				growLeft--
 			}
 		})
 	}
@@ -306,6 +342,21 @@ func RunC14(r *sim.Run) {
 		if remaining > 0 || noiseLeft > 0 {
 			return
 		}
+		if growEp != "" {
+			// a server is being added: wait until the update is applied and the traffic has passed
+			if growLeft > 0 || warm > 0 {
+				return
+			}
+			eps = append(eps, growEp)
+			subset = append(subset, growEp)
+			setReady(growEp, true)
+			r.Logf("server %s added, ready", growEp)
+			growEp = ""
+			grown++
+			stretchStart = len(picks)
+			remaining = t.Range(20, 60)
+			return
+		}
 		// stretch finished (or first call): evaluate and start the next one
 		if stretch >= 0 {
 			checkStretch()
@@ -316,6 +367,16 @@ func RunC14(r *sim.Run) {
 		stretch++
 		if stretch >= nStretch {
 			done = true
+			return
+		}
+		// (also right after start-up, before the first request has been served)
+		if !explicit && len(eps) < 4 && ((stretch > 0 && t.Draw(2) == 0) || (stretch == 0 && t.Draw(3) == 0)) {
+			growEp = fmt.Sprintf("http://e%d:80", len(eps))
+			cl = cl.DeepCopy()
+			cl.Spec.Servers = append(cl.Spec.Servers, proxyv1alpha1.UpstreamClusterServer{Endpoint: growEp})
+			growObj = cl
+			growLeft, warm = 1, t.Range(2, 8)
+			syncLeft = 0
 			return
 		}
 		if stretch > 0 {
@@ -333,7 +394,7 @@ func RunC14(r *sim.Run) {
 			syncLeft = t.Range(1, 3)
 		}
 	}
-	why := sc.RunRounds(12000, style, atQuiet)
+	why := sc.RunRounds(30000, style, atQuiet)
 	for _, th := range sc.Threads() {
 		if th.Panic != nil {
 			r.Violate("panic", th.PanicTop, "thread %s panicked: %v", th.Name, th.Panic)
@@ -367,6 +428,7 @@ func RunC14(r *sim.Run) {
 	r.ProbeN("noise_picks", noisePicks)
 	r.ProbeN("yields", sc.Yields)
 	r.ProbeN("resyncs_with_unchanged_servers", resyncs)
+	r.ProbeN("servers_added_under_traffic", grown)
 	if nPick > 1 {
 		r.Probe("concurrent_pickers")
 	}
